@@ -1343,8 +1343,8 @@ def exc_info(case, res):
 # source tie: the translated text of spec_augment_draw_parameters, interpreted inside Coq
 # ----------------------------------------------------------------------------------------
 IMPORTS_SRC = IMPORTS + "From PV Require C08.SrcRun.\n"
-SRC_THEOREMS = ["c08_source_draw_is_model", "c08_source_draw_exact", "c08_source_time_masks_within_caps",
-                "c08_source_freq_masks_within_bounds", "c08_source_masks_float32"]
+SRC_THEOREMS = ["c08_source_draw_is_model", "c08_source_draw_exact", "c08_source_masks_within_limits",
+                "c08_source_masks_float32", "c08_source_time_mask_formulas"]
 
 
 def _exact_double(x):
